@@ -284,6 +284,9 @@ def check_C18(ctx):
         ctx.kvh()
         n_seq, n_gated = (300, 260) if quick else (3000, 2500)
         seq = tlc_sim(ctx, 'GEN_Mem', 'GEN_Mem_seq.cfg', n_seq, 600, ctx.seed * 13 + 5, timeout=600, tag='gen-seq')
+        # dense: ONE key, seven sequence numbers - many versions side by side, so that iterators created earlier find several
+        # entries they must not show right at their seek target
+        seq += tlc_sim(ctx, 'GEN_Mem', 'GEN_Mem_seq_dense.cfg', n_seq // 2, 600, ctx.seed * 13 + 6, timeout=600, tag='gen-seq-dense')
         gated = tlc_sim(ctx, 'GEN_Mem', 'GEN_Mem_gated.cfg', n_gated, 600, ctx.seed * 17 + 3, timeout=600, tag='gen-gated')
         hooks = has_reader_hooks()
         cg = corpus('mem.ndjson')
